@@ -235,7 +235,7 @@ func Written(name string) bool { return false }
 func ChangedWhere() string { return "" }
 
 // WatchGlobals starts logging writes to package-level variables of the module; GlobalWrites counts them.
-func WatchGlobals()     {}
+func WatchGlobals() {}
 
 // CallUnmarshalers calls, under the executor, the UnmarshalYAML method of every
 // module type reachable from the static type of target (on a zero value, with a
@@ -246,7 +246,7 @@ func CallUnmarshalers(target any) int { return 0 }
 // to (a stateful writer, hasher, compressor): sharing such an object between
 // two packagings is then seen as a write to shared memory. No-op natively,
 // where the real object is really written (and the race detector sees it).
-func Touch(ptr any) {}
+func Touch(ptr any)     {}
 func GlobalWrites() int { return 0 }
 
 var (
